@@ -112,6 +112,12 @@ def build_table_file(case):
             si = 2 if key == 'str' else tidx[key]
             lead = dyn['lead'][n % len(dyn['lead'])]
             v = dyn['vbase'] + n * 0x10000
+            if dyn.get('touch') and n:
+                # the table is the first thing in its segment, and the segment begins at the very address where the file-backed part of the
+                # one before ends: adjacent in memory, apart in the file (a pointer equal to an end address belongs to the segment it starts)
+                lead = 0
+                v = prev_end
+            prev_end = v + lead + dyn['pad'] + len(secs[si]['data'])
             segs.append({'p_type': 1, 'p_flags': 4, 'p_offset': ['sec_off', si, -lead], 'p_vaddr': v, 'p_paddr': v,
                          'p_filesz': ['sec_size', si, lead + dyn['pad']], 'p_memsz': ['sec_size', si, lead + dyn['pad']], 'p_align': 1})
             addr[key] = v + lead
@@ -840,7 +846,7 @@ def gen_tables(ch, tier, kind=None, cls=None, le=None, em=None, sizes=None):
             tags.append(list(ch.choice(NOISE_TAGS)[:1]) + ['val', ch.choice(NOISE_TAGS)[1]])
         tags = ch.perm(tags) + [[DT_NULL, 'val', 0]]
         nseg = len({t[2] for t in tags if t[1] == 'addr'}) + 1
-        case['dyn'] = {'via': via, 'dynsec': dynsec, 'want': want, 'tags': tags, 'vbase': ch.choice(VBASE[cls]), 'lead': [ch.choice([0, 1, 16, 40]) for _ in range(3)],
+        case['dyn'] = {'via': via, 'dynsec': dynsec, 'want': want, 'tags': tags, 'vbase': ch.choice(VBASE[cls]), 'touch': ch.bool(0.3), 'lead': [ch.choice([0, 1, 16, 40]) for _ in range(3)],
                        'pad': ch.choice([1, 1, 8]), 'dyn_pos': ch.int(0, nseg)}
     nmax = max([len(t.get('entries', t.get('words'))) for t in tables] + [1])
     case['probe'] = sorted({0, nmax - 1, ch.int(0, nmax - 1), ch.int(0, nmax - 1)})
@@ -1018,7 +1024,7 @@ def _dyn_for(tables, cls, via, dynsec, vbase):
             want['REL'] = k
             tags += [[DT_REL, 'addr', k], [DT_RELSZ, 'val', len(t['entries']) * ent_size(cls, False)], [DT_RELENT, 'val', ent_size(cls, False)]]
     tags += [[DT_STRTAB, 'addr', 'str'], [DT_STRSZ, 'val', 9], [DT_NULL, 'val', 0]]
-    return {'via': via, 'dynsec': dynsec, 'want': want, 'tags': tags, 'vbase': vbase, 'lead': [0, 16, 1], 'pad': 1, 'dyn_pos': len(tables) % 3}
+    return {'via': via, 'dynsec': dynsec, 'want': want, 'tags': tags, 'vbase': vbase, 'lead': [0, 16, 1], 'pad': 1, 'dyn_pos': len(tables) % 3, 'touch': len(tables) % 2 == 0}
 
 
 def sweep_tables():
